@@ -54,7 +54,8 @@ def gen_case(rng, quick=True, impl=None, consts=None, pes=None):
                 pos=[rs(dyadic(rng, -1, 1, 2)) for _ in range(n)], tangent=[rs(dyadic(rng, -1, 1, 2)) for _ in range(n)],
                 newpos=[rs(dyadic(rng, -1, 1, 2)) for _ in range(n)],
                 constants=sorted(consts), point_estimates=sorted(pes), mirror=rng.random() < 0.7,
-                n_samples=rng.randint(1, 2), seed=rng.randint(0, 2 ** 31 - 1))
+                n_samples=rng.randint(1, 2), seed=rng.randint(0, 2 ** 31 - 1),
+                kl_map=rng.choice(["vmap", "lmap", "smap"]), ovi_jit=rng.random() < 0.4, driver=False)
 
 
 def _split(c, v):
@@ -162,6 +163,19 @@ def real_cl(c):
             out["mean2"] = flat(kl2.samples.mean, KEYS) if hasattr(kl2.samples, "mean") else None
             out["samples2"] = smp2
         out["mean"] = flat(kl.samples.mean, KEYS)
+        if c.get("driver") and var:
+            # the classic driver end to end: constants must come back bit-identical, the other keys move
+            nrandom.push_sseq_from_seed(c["seed"] % 2 ** 31)
+            try:
+                mini = ift.NewtonCG(ift.AbsDeltaEnergyController(1e-10, iteration_limit=3, convergence_level=2))
+                sl, pos2 = ift.optimize_kl(lh, 1, c["n_samples"], mini, ic, nonlinear_sampling_minimizer=None,
+                                           constants=list(c["constants"]), point_estimates=list(c["point_estimates"]),
+                                           initial_position=p, output_directory=None, plot_energy_history=False,
+                                           plot_minisanity_history=False, return_final_position=True, sanity_checks=False)
+            finally:
+                nrandom.pop_sseq()
+            out["okl_pos"] = flat(pos2, KEYS)
+            out["okl_mean"] = flat(sl.mean, KEYS) if hasattr(sl, "mean") else None
         return out
     return safe(go)
 
@@ -186,7 +200,9 @@ def real_jax(c):
         p = mk(fll(c["pos"]))
         pe = tuple(c["point_estimates"])
         var = [k for k in KEYS if k not in c["constants"]]
-        ovi = jft.OptimizeVI(lh, n_total_iterations=1, jit=False, linear_minimizer_jit=False)
+        kmap = {"vmap": jax.vmap, "lmap": "lmap", "smap": "smap"}[c.get("kl_map", "vmap")]
+        ovi = jft.OptimizeVI(lh, n_total_iterations=1, jit=bool(c.get("ovi_jit", False)), linear_minimizer_jit=False,
+                             kl_map=kmap)
         keys = jax.random.split(jax.random.PRNGKey(c["seed"]), c["n_samples"])
         cg_kw = dict(absdelta=1e-14, maxiter=200, miniter=2)
         smp, _ = ovi.draw_linear_samples(p, keys, point_estimates=pe, cg_kwargs=cg_kw)
@@ -287,6 +303,15 @@ def oracle(case):
                 pass  # constants of the mean are checked bitwise below through the mean itself
         if not np.array_equal(r["mean"], pos):
             return ("sample list mean differs from the expansion point", dict(sig, what="mean"))
+        if "okl_pos" in r:
+            if ci and not np.array_equal(r["okl_pos"][ci], pos[ci]):
+                return (f"classic optimize_kl changed the constant keys {case['constants']}", dict(sig, what="constants_fixed"))
+            if vi and np.array_equal(r["okl_pos"][vi], pos[vi]) and np.max(np.abs(gref)) > 1e-6:
+                return ("classic optimize_kl did not move the non-constant keys although the gradient is non-zero",
+                        dict(sig, what="no_progress"))
+            if r.get("okl_mean") is not None and not np.array_equal(r["okl_mean"], r["okl_pos"]):
+                return ("classic optimize_kl: the returned sample list is not centred on the returned position",
+                        dict(sig, what="mean"))
     else:
         if ci and not np.array_equal(r["x_after"][ci], r["pos"][ci]):
             return (f"kl_minimize changed constant keys {case['constants']}", dict(sig, what="constants_fixed"))
@@ -311,21 +336,27 @@ def shrink(case):
 
 def run(ctx):
     rng = ctx.rng
-    cases = [gen_case(rng, ctx.quick) for _ in range(ctx.n(6, 30))]
+    cases = [gen_case(rng, ctx.quick) for _ in range(ctx.n(3, 30))]
     # every split of keys into constants / point estimates (thorough: all 8×7; quick: a rotating sample)
     subsets = [list(s) for k in range(4) for s in itertools.combinations(KEYS, k)]
     splits = [(cs, ps) for cs in subsets for ps in subsets if len(ps) < 3]
     if ctx.quick:
-        splits = rng.sample(splits, 6)
+        splits = rng.sample(splits, 5)
     for cs, ps in splits:
         for impl in (("cl", "jax") if not ctx.quick else (rng.choice(["cl", "jax"]),)):
             cases.append(gen_case(rng, ctx.quick, impl=impl, consts=cs, pes=ps))
+    for _ in range(ctx.n(1, 6)):
+        c = gen_case(rng, ctx.quick, impl="cl", consts=[rng.choice(KEYS)], pes=rng.choice([[], [rng.choice(KEYS)]]))
+        c["driver"] = True
+        cases.append(c)
     lines, meta = [], []
     for c in cases:
         ctx.case(c, True)
         ctx.stat(f"impl={c['impl']}")
         ctx.stat(f"constants={len(c['constants'])},pe={len(c['point_estimates'])}")
         ctx.stat(f"mirror={c['mirror'] or c['impl'] == 'jax'}")
+        if c["impl"] == "jax":
+            ctx.stat(f"options:kl_map={c['kl_map']},jit={c['ovi_jit']}")
         res = oracle(c)
         if res is not None:
             ctx.counterexample(c, *res)
